@@ -229,7 +229,7 @@ def gen_server_case(k, ctx, rng):
         maybe('DownCredit', credits, 0.1)
         maybe('ExpiryTime', [0, now - 1, now, now + 1000, I64MAX], 0.1)
         if k % 3 == 0:     # a healthy share of fully valid users
-            fields.update(SessionsCap=rng.choice([1, 5]), UpRate=rng.choice([1, 1000, 10**9, I64MAX]), DownRate=rng.choice([1000, 10**6, I64MAX]),
+            fields.update(SessionsCap=rng.choice([0, 1, 5, -1]), UpRate=rng.choice([1, 1000, 10**9, I64MAX]), DownRate=rng.choice([1000, 10**6, I64MAX]),
                           UpCredit=rng.choice([1000, 10**12]), DownCredit=rng.choice([1000, 10**12]), ExpiryTime=now + 1000)
         add(mk_post(seg_of(u, rng), 'u:' + hx(u), render_json(u, fields, rng), bclass(u, fields)), ['P', 'valid', hx(u), fields])
         if rng.random() < 0.3:    # a later partial update
